@@ -516,4 +516,86 @@ def dprintDouble {D : Type} [FloatLike D] (a : D) (prec : Int) : Option (List Na
             if prec > 0 then some (sign ++ decText n ++ 46 :: (zeroPad 20 (lim / 10) frac ++ decText frac))
             else some (sign ++ decText n)
 
+/-! ## round 3: "no digits -> no conversion", the entry points, C widths of the exponent counters
+
+  `igris_atof64` / `igris_atof32` begin (fix of round 3) with
+
+      if (!has_mantissa_digit(str)) { if (pend) *pend = (char *)str; return 0; }
+
+  `atof64` / `atof32` above are the rest of the two functions. -/
+
+/-- `static int has_mantissa_digit(const char *s) { if (*s == '+' || *s == '-') s++; if (*s == '.') s++;
+    return *s >= '0' && *s <= '9'; }` on the bytes of the allocation (`none`: read behind it) -/
+def hasMantissaDigit (s : List Nat) : Option Bool :=
+  match s with
+  | [] => none
+  | c :: s1 =>
+    match (if c = 43 ∨ c = 45 then s1 else c :: s1) with
+    | [] => none
+    | d :: s2 =>
+      match (if d = 46 then s2 else d :: s2) with
+      | [] => none
+      | x :: _ => some (isDigit x)
+
+/-- `igris_atof64(nptr, &end)` (non-null `nptr`): value and end offset -/
+def igrisAtof64 {F : Type} [FloatLike F] (s : List Nat) : Option (F × Nat) :=
+  match hasMantissaDigit s with
+  | none => none
+  | some false => some (ofInt 0, 0)
+  | some true => atof64 s
+
+/-- `igris_atof32(str, &end)` -/
+def igrisAtof32 {F D : Type} [FloatLike F] [FloatLike D] (cvt : D → F) (s : List Nat) : Option (F × Nat) :=
+  match hasMantissaDigit s with
+  | none => none
+  | some false => some (ofInt 0, 0)
+  | some true => atof32 (D := D) cvt s
+
+/-- `double igris_strtod(nptr, endptr) { return igris_atof64(nptr, endptr); }` (default build) -/
+def igrisStrtod {F : Type} [FloatLike F] (s : List Nat) : Option (F × Nat) := igrisAtof64 s
+
+/-- compat/libc/stdlib/strtod.c `strtod` (default build) -/
+def compatStrtod {F : Type} [FloatLike F] (s : List Nat) : Option (F × Nat) := igrisAtof64 s
+
+/-- compat `atof`: `igris_atof64(nptr, NULL)` -/
+def compatAtof {F : Type} [FloatLike F] (s : List Nat) : Option F := (igrisAtof64 (F := F) s).map (·.1)
+
+/-- `binreader::read_ascii_decimal_float`: `*ret = igris_atof32(ptr, (char **)&ptr)`; value and new position -/
+def binreaderFloat {F D : Type} [FloatLike F] [FloatLike D] (cvt : D → F) (s : List Nat) : Option (F × Nat) :=
+  igrisAtof32 (D := D) cvt s
+
+/-- the WITHOUT_ATOF64 build: `double igris_strtod(nptr, endptr) { return igris_atof32(nptr, endptr); }` —
+    the float is widened to double by the `return` -/
+def igrisStrtod32 {F D : Type} [FloatLike F] [FloatLike D] (cvt : D → F) (widen : F → D) (s : List Nat) :
+    Option (D × Nat) :=
+  (igrisAtof32 (D := D) cvt s).map fun (v, e) => (widen v, e)
+
+/-- compat `strtod` of the WITHOUT_ATOF64 build -/
+def compatStrtod32 {F D : Type} [FloatLike F] [FloatLike D] (cvt : D → F) (widen : F → D) (s : List Nat) :
+    Option (D × Nat) :=
+  (igrisAtof32 (D := D) cvt s).map fun (v, e) => (widen v, e)
+
+/-- compat `atof` of the WITHOUT_ATOF64 build -/
+def compatAtof32 {F D : Type} [FloatLike F] [FloatLike D] (cvt : D → F) (widen : F → D) (s : List Nat) : Option D :=
+  (igrisAtof32 (D := D) cvt s).map fun (v, _) => widen v
+
+/-- `igris_ftoa` of the WITHOUT_ATOF64 build takes a `float32_t`: a double argument is converted at the call -/
+def igrisFtoa32 {F D : Type} [FloatLike F] (cvt : D → F) (d : D) (precision : Int) : Option (List Nat) :=
+  f32toa (cvt d) precision
+
+/-! ### the counters at their C width (`int e_val`, `int d`: 32-bit two's complement) -/
+
+def wrapInt32 (i : Int) : Int := (i + 2147483648) % 4294967296 - 2147483648
+
+/-- the exponent digit loop with `e_val` as a wrapping C `int` -/
+def expDigitsC : List Nat → Int → Option (Int × List Nat)
+  | [], _ => none
+  | c :: rest, ev =>
+    if isDigit c then expDigitsC rest (if ev < 100000 then wrapInt32 (ev * 10 + ((c : Int) - 48)) else ev)
+    else some (ev, c :: rest)
+
+/-- `int d` of igris_atof64 after `d--` per fraction digit and `d += e_val * e_sign`, as a wrapping C `int` -/
+def deltaC (nfrac : Nat) (eneg : Bool) (ev : Int) : Int :=
+  wrapInt32 (wrapInt32 (-(nfrac : Int)) + wrapInt32 (ev * (if eneg then -1 else 1)))
+
 end Igris.C12
